@@ -27,7 +27,8 @@ ASSUMPTIONS = ["process-kill semantics at Python-line granularity (sqlite's own 
                "new, unrecorded directories may be left behind by a failed restore (the property allows that)"]
 ESSENTIAL = ["dup_row_not_first", "missing_dir_not_first", "kill_after_first_copy", "kill_between_last_copy_and_commit",
              "truncated_stream", "preexisting_unrecorded_dir", "no_fault_success", "missing_index", "prior_same_task_other_ts",
-             "not_a_tar", "byte_flip", "kill_inside_shutil", "generated_listing_order"]
+             "not_a_tar", "byte_flip", "kill_inside_shutil", "generated_listing_order", "interrupted_by_signal",
+             "signal_during_index_commit"]
 TECHNIQUE = "fault injection: generated archive corruptions + every executed line of `cond restore` as a kill point (sys.settrace, os._exit); all-or-nothing oracle over rows and tree snapshots"
 LEVEL_TEXT = ("Structural and byte-level archive faults are generated; crash points are enumerated per Python line for fixed scenarios "
               "(every line in thorough) and sampled for generated ones. Judged on index rows read afresh and on tree snapshots.")
@@ -52,10 +53,11 @@ def _case(draw, tier):
         used.add((t, ts))
         rows.append([t, ts, draw(st.sampled_from([None, "a" * 40, "b" * 40])), draw(st.booleans()), draw(st.sampled_from(range(len(TREES))))])
     fault = draw(st.sampled_from(["none", "no_index", "missing_dir", "missing_dir", "truncate", "flip", "not_tar", "dup_row", "dup_row",
-                                  "preexisting_dir", "parent_is_file", "kill", "kill", "kill"]))
+                                  "preexisting_dir", "parent_is_file", "kill", "kill", "kill", "signal", "signal"]))
     case = {"rows": rows, "fault": fault, "pos": draw(st.sampled_from(range(5))), "frac": draw(st.sampled_from(range(1000))),
             "prior": draw(st.sampled_from(["empty", "unrelated", "same_task", "stale_staging"])), "ndup": draw(st.sampled_from([1, 1, 2])),
             "not_tar": draw(st.sampled_from(["garbage", "empty", "dir", "missing"]))}
+    case["sig"] = draw(st.sampled_from([2, 15]))
     # kill points inside shutil.copytree/rmtree as well, and the order in which directory entries are listed
     case["deep"] = draw(st.booleans())
     case["order"] = draw(st.sampled_from(["fs", "fs", "sorted", "reversed", 1, 2]))
@@ -77,6 +79,7 @@ FIXED = [
      "fault": "kill", "pos": 0, "frac": 0, "prior": "empty", "ndup": 1, "not_tar": "garbage"},
 ]
 _NLINES = {}
+_COMMIT_AT = {}
 
 
 def enumerate_cases(tier, w, nworkers):
@@ -164,13 +167,18 @@ def repack(arch, out, drop_prefix=None, drop_index=False):
 
 
 def count_lines(case, tier="quick"):
-    key = (repr(case["rows"]), case["prior"], tier, case.get("deep"), case.get("order"))
+    key = (repr(case["rows"]), case["prior"], tier, case.get("deep"), case.get("order"), case["fault"] == "signal")
     if key not in _NLINES:
         work = projgen.new_scratch("c12n")
         try:
             arch, dst, rows, src = prepare(case, work)
-            res = run_cond(dst, ["restore", arch], inject={"mode": "count", "files": _files(tier, case.get("deep"))}, pre=_pre(case))
+            res = run_cond(dst, ["restore", arch], inject={"mode": "count", "files": _files(tier, case.get("deep")),
+                                                           "returns": ["commit_changes"] if case["fault"] == "signal" else False,
+                                                           "record_at": case["fault"] == "signal"}, pre=_pre(case))
             _NLINES[key] = res.get("lines", 0)
+            # the last event inside VersionIndex.commit_changes = the return from the final index commit
+            tl = res.get("trace_lines") or []
+            _COMMIT_AT[key] = max([i + 1 for i, e in enumerate(tl) if e[2] == "commit_changes"], default=None)
         finally:
             projgen.rm(work)
     return _NLINES[key]
@@ -266,6 +274,16 @@ def _run(case, work):
         n = count_lines(case, tier)
         k = case["k"] if "k" in case else 1 + case["frac"] * n // 1000
         inject = {"mode": "kill", "at": k, "files": _files(tier, case.get("deep"))}
+    if fault == "signal":
+        # SIGINT/SIGTERM instead of SIGKILL: Conductor's own handlers and clean-up code run.  Injection points are the executed
+        # lines and the return of VersionIndex.commit_changes (a signal that arrives while sqlite commits is handled inside
+        # that function, right after the C call and before it returns)
+        n = count_lines(case, tier)
+        k = 1 + case["frac"] * n // 1000
+        ckey = (repr(case["rows"]), case["prior"], tier, case.get("deep"), case.get("order"), True)
+        if case["frac"] % 3 == 0 and _COMMIT_AT.get(ckey):
+            k = _COMMIT_AT[ckey]   # a third of the signal cases: the signal arrives while sqlite commits the index
+        inject = {"mode": "abort", "at": k, "sig": case.get("sig", 2), "files": _files(tier, case.get("deep")), "returns": ["commit_changes"]}
     if case["prior"] == "same_task":
         labels.add("prior_same_task_other_ts")
     if case["prior"] == "stale_staging":
@@ -277,6 +295,13 @@ def _run(case, work):
     rows_after = projgen.read_rows(dst)
     snap_after = trees.snapshot(os.path.join(dst, "cond-out"))
     killed = res["status"] == "killed"
+    if fault == "signal" and res.get("inject"):
+        # judged like a kill: nothing, or (when the signal came after the commit point) everything
+        killed = True
+        labels.add("interrupted_by_signal")
+        inj = res["inject"]
+        if inj.get("func") == "commit_changes":
+            labels.add("signal_during_index_commit")
     ok = res["status"] == 0 and not killed
     summary = {"fault": case["fault"], "pos": pos, "rows": rows, "prior": case["prior"], "status": res["status"]}
     if killed:
